@@ -287,3 +287,7 @@ _patch("C17", "text", "Tie:", "Tie (besides the in-process round trip below, the
        "daemon started as a service runs on - it listens on the stored address and uses the stored forwarder, also after one more option is set):")
 _patch("C19", "text", "Tie:", "Tie (besides the crash-injection engine below, the real daemon: `nextdns run -auto-activate` through stop, kill + restart + stop and "
        "stop + restart + stop in a scratch /etc - the original is on disk while active and back byte for byte at the end):")
+_patch("C15", "text", "the translator emits every method body as a frame of its own and C15_frames_ok evaluates the rule on them.",
+       "the translator emits every method body as a frame of its own and C15_frames_ok evaluates the rule on them; C15_frame_rule_transfers "
+       "carries the rule from a frame to every well-bracketed path that contains the frame's events in order with callee blocks (which give "
+       "back every lock they take) in between.")
